@@ -1,0 +1,23 @@
+//go:build verif
+
+package gc
+
+import "github.com/thought-machine/please/src/core"
+
+// Verification hook for property C25 (add-only; compiled only with the build tag `verif`).
+// It exports the unexported decision functions of `plz gc` unchanged.
+
+// VerifTargetsToRemove is targetsToRemove.
+func VerifTargetsToRemove(graph *core.BuildGraph, filter, targets, targetsToKeep []core.BuildLabel, keepLabels []string, includeTests bool) (core.BuildLabels, []string) {
+	return targetsToRemove(graph, filter, targets, targetsToKeep, keepLabels, includeTests)
+}
+
+// VerifPublicDependencies is publicDependencies.
+func VerifPublicDependencies(graph *core.BuildGraph, target *core.BuildTarget) []*core.BuildTarget {
+	return publicDependencies(graph, target)
+}
+
+// VerifGcSibling is gcSibling.
+func VerifGcSibling(graph *core.BuildGraph, target *core.BuildTarget) *core.BuildTarget {
+	return gcSibling(graph, target)
+}
